@@ -1,11 +1,45 @@
-/-! Model/Gather.lean (prototype) — disk gather loop + statistics; output identical to the real index on 400 cases -/
+/-! Model/Gather.lean — the disk `RevIndex::gather` loop, `prepare_gather_counters` and
+`calculate_gather_stats` (src/core/src/index/revindex/disk_revindex.rs, src/core/src/index/mod.rs),
+branch for branch.  Core Lean only (linked into `drv_c08`).
+
+Data: a collection is a list of datasets, dataset `d` = `dsets[d]`, each a strictly increasing hash list
+(a scaled `KmerMinHash`); the query is a strictly increasing list of `(hash, abundance)`.
+The counter (`counter::Counter<Idx>`, a hash map) is an association list `dataset ↦ count`.
+Every `f64` field of `GatherResult` that is a quotient `a as f64 / b as f64` is the pair `(a, b)`.
+
+The loop is written as a one-round function `step` (everything between `while` and the closing brace)
+iterated by `run` with fuel; `run` also records the state each round started from, which is what the
+theorems in `Theorems/C08.lean` talk about.  `gather` projects the rows. -/
 namespace Gather
 
+/-- `a ∩ b` in the order of `a` (both sorted in the code, so this is the sorted intersection that
+    `KmerMinHash::intersection` returns) -/
 def isectL (a b : List Nat) : List Nat := a.filter (fun x => b.contains x)
 
+/-- `collection.sig_for_dataset(d)` → its hashes -/
+def dsOf (dsets : List (List Nat)) (d : Nat) : List Nat := dsets.getD d []
+
+structure Cfg where
+  dsets : List (List Nat)
+  scaled : Nat
+  threshold : Nat
+  /-- `orig_query.track_abundance()` -/
+  track : Bool
+  /-- `orig_query` as `(hash, abundance)`; abundances are ignored when `track = false` -/
+  orig : List (Nat × Nat)
+
+/-- `orig_query.sum_abunds()`: Σ abundances, or the size of an untracked sketch -/
+def Cfg.totalW (c : Cfg) : Nat := if c.track then (c.orig.map (·.2)).sum else c.orig.length
+
 structure Row where
+  /-- dataset id of the match (`name` = `d<id>` in the harness) -/
   d : Nat
+  /-- `gather_result_rank` -/
   rank : Nat
+  /-- the counter value of the match (`match_size`, numerator of `f_match`) -/
+  size : Nat
+  /-- second component of `calculate_gather_stats`: `match ∩ remaining query` -/
+  isect : List Nat
   intersectBp : Nat
   uniqueBp : Nat
   remainingBp : Nat
@@ -17,50 +51,128 @@ structure Row where
   fUnique : Nat × Nat
   fUniqueW : Nat × Nat
   fMatchOrig : Nat × Nat
+  avgAbund : Nat × Nat
+  medianAbund : Nat × Nat
+  /-- abundances of the intersection taken from the remaining query (input of `stddev`); `[]` untracked -/
+  abunds : List Nat
 
-/-- counter as association list dataset ↦ count (only datasets with ≥1 shared hash initially) -/
-def argmax (c : List (Nat × Nat)) : Option (Nat × Nat) :=
-  c.foldl (fun best (d, n) => match best with
-    | none => some (d, n)
-    | some (bd, bn) => if n > bn || (n == bn && d < bd) then some (d, n) else some (bd, bn)) none
+/-- `prepare_gather_counters`: every query hash found in the index adds 1 to each dataset holding it;
+    datasets sharing no hash never enter the counter. -/
+def prepareCounter (dsets : List (List Nat)) (qk : List Nat) : List (Nat × Nat) :=
+  (List.range dsets.length).filterMap (fun d =>
+    let n := (qk.filter (fun h => (dsOf dsets d).contains h)).length
+    if n = 0 then none else some (d, n))
 
-def gatherLoop (dsets : List (List Nat)) (scaled threshold : Nat) (track : Bool)
-    (orig : List (Nat × Nat)) (totalW : Nat) :
-    Nat → List (Nat × Nat) → List (Nat × Nat) → Nat → Nat → List Row → List Row
-  | 0, _, _, _, _, acc => acc.reverse
-  | fuel+1, counter, remaining, matchSize, sumW, acc =>
-    if !(matchSize > threshold && !counter.isEmpty) then acc.reverse else
-    match argmax counter with
-    | none => acc.reverse
-    | some (d, size) =>
-      if !(size ≥ threshold) then acc.reverse else
-      if size == 0 then acc.reverse else
-      let m := dsets.getD d []
-      let remKeys := remaining.map (·.1)
-      let origKeys := orig.map (·.1)
-      let isect := isectL m remKeys
-      let interOrig := (isectL m origKeys).length
-      let nUW := if track then (remaining.filter (fun (h, _) => m.contains h)).foldl (fun s (_, a) => s + a) 0 else 0
-      let sumW' := if track then sumW + nUW else 0
-      let row : Row := {
-        d := d, rank := acc.length, intersectBp := scaled * interOrig, uniqueBp := scaled * isect.length,
-        remainingBp := (remKeys.length - isect.length) * scaled, nUniqueW := nUW, sumW := sumW', totalW := totalW,
-        fOrig := (interOrig, origKeys.length), fMatch := (size, m.length), fUnique := (isect.length, origKeys.length),
-        fUniqueW := if track then (nUW, totalW) else (isect.length, origKeys.length), fMatchOrig := (interOrig, m.length) }
-      let remaining' := remaining.filter (fun (h, _) => !m.contains h)
-      -- decrement every dataset containing each isect hash
-      let counter' := isect.foldl (fun c h =>
-        c.map (fun (d', n) => if (dsets.getD d' []).contains h then (d', n - 1) else (d', n))) counter
-      let counter'' := counter'.filter (fun (d', _) => d' != d)
-      gatherLoop dsets scaled threshold track orig totalW fuel counter'' remaining' size sumW' (row :: acc)
+/-- order of `k_most_common_ordered`: larger count first, equal counts by ascending key -/
+def better (y best : Nat × Nat) : Bool := y.2 > best.2 || (y.2 == best.2 && y.1 < best.1)
 
-def gather (dsets : List (List Nat)) (scaled threshold : Nat) (track : Bool) (q : List (Nat × Nat)) : List Row :=
-  let qk := q.map (·.1)
-  let counter := (List.range dsets.length).filterMap (fun d =>
-    let n := (isectL (dsets.getD d []) qk).length
-    if n == 0 then none else some (d, n))
-  let totalW := if track then q.foldl (fun s (_, a) => s + a) 0 else q.length
-  -- usize::MAX start value
-  gatherLoop dsets scaled threshold track q totalW (dsets.length + 1) counter q (2^64 - 1) 0 []
+/-- `counter.k_most_common_ordered(1)[0]` -/
+def argmax : List (Nat × Nat) → Option (Nat × Nat)
+  | [] => none
+  | x :: xs => some (xs.foldl (fun best y => if better y best then y else best) x)
+
+/-- one hash of the intersection: `counter.entry(dataset).and_modify(|e| *e -= 1)` for every dataset of
+    the hash's colour (= every dataset holding the hash); absent entries stay absent -/
+def decOne (dsets : List (List Nat)) (h : Nat) (c : List (Nat × Nat)) : List (Nat × Nat) :=
+  c.map (fun e => if (dsOf dsets e.1).contains h then (e.1, e.2 - 1) else e)
+
+def decrement (dsets : List (List Nat)) (isect : List Nat) (c : List (Nat × Nat)) : List (Nat × Nat) :=
+  isect.foldl (fun c h => decOne dsets h c) c
+
+/-- `stats::median` as (numerator, denominator); the code panics on an empty list (unreachable: the
+    intersection of a reported match is never empty, theorem `unique_eq_counter`) -/
+def medianPair (xs : List Nat) : Nat × Nat :=
+  let s := xs.mergeSort (fun a b => decide (a ≤ b))
+  let n := s.length
+  if n = 0 then (0, 0)
+  else if n % 2 = 0 then (s.getD (n / 2 - 1) 0 + s.getD (n / 2) 0, 2)
+  else (s.getD (n / 2) 0, 1)
+
+/-- `calculate_gather_stats` (same scaled on both sides, `calc_ani_ci = false`) -/
+def stats (c : Cfg) (remaining : List (Nat × Nat)) (d size rank sumW : Nat) : Row :=
+  let m := dsOf c.dsets d
+  let remKeys := remaining.map (·.1)
+  let origKeys := c.orig.map (·.1)
+  let isect := isectL m remKeys
+  let interOrig := (isectL m origKeys).length
+  -- `match_mh.inflated_abundances(&remaining_query)`
+  let abunds := (remaining.filter (fun p => m.contains p.1)).map (·.2)
+  let nUW := if c.track then abunds.sum else 0
+  { d := d, rank := rank, size := size, isect := isect
+    intersectBp := c.scaled * interOrig
+    uniqueBp := c.scaled * isect.length
+    remainingBp := (remKeys.length - isect.length) * c.scaled
+    nUniqueW := nUW
+    sumW := if c.track then sumW + nUW else 0
+    totalW := c.totalW
+    fOrig := (interOrig, origKeys.length)
+    fMatch := (size, m.length)
+    fUnique := (isect.length, origKeys.length)
+    fUniqueW := if c.track then (nUW, c.totalW) else (isect.length, origKeys.length)
+    fMatchOrig := (interOrig, m.length)
+    avgAbund := if c.track then (nUW, abunds.length) else (1, 1)
+    medianAbund := if c.track then medianPair abunds else (1, 1)
+    abunds := if c.track then abunds else [] }
+
+/-- loop state -/
+structure St where
+  counter : List (Nat × Nat)
+  /-- `query`: the not yet explained part of the original query -/
+  remaining : List (Nat × Nat)
+  matchSize : Nat
+  sumW : Nat
+  /-- dataset ids of `matches`, in order (`matches.len()` is the next rank) -/
+  reported : List Nat
+
+/-- one round of `while match_size > threshold && !counter.is_empty() { … }`; `none` = the loop ends
+    here (condition false, or one of the two `break`s) -/
+def step (c : Cfg) (s : St) : Option (Row × St) :=
+  if ¬ (s.matchSize > c.threshold ∧ s.counter ≠ []) then none else
+  match argmax s.counter with
+  | none => none
+  | some (d, size) =>
+    -- `match_size = if size >= threshold { size } else { break }`
+    if ¬ (size ≥ c.threshold) then none else
+    -- `if match_size == 0 { break }`
+    if size = 0 then none else
+    let row := stats c s.remaining d size s.reported.length s.sumW
+    some (row,
+      { -- decrement per intersection hash, then `counter.remove(&dataset_id)`
+        counter := (decrement c.dsets row.isect s.counter).filter (fun e => e.1 != d)
+        -- `query.remove_many(match_mh.iter_mins())`
+        remaining := s.remaining.filter (fun p => !(dsOf c.dsets d).contains p.1)
+        matchSize := size
+        sumW := row.sumW
+        reported := s.reported ++ [d] })
+
+/-- the rounds, each with the state it started from -/
+def run (c : Cfg) : Nat → St → List (St × Row)
+  | 0, _ => []
+  | f + 1, s =>
+    match step c s with
+    | none => []
+    | some (row, s') => (s, row) :: run c f s'
+
+/-- the state the loop stops in -/
+def final (c : Cfg) : Nat → St → St
+  | 0, s => s
+  | f + 1, s =>
+    match step c s with
+    | none => s
+    | some (_, s') => final c f s'
+
+/-- state on entry: counters from the index, whole query, `match_size = usize::MAX` -/
+def init (c : Cfg) : St :=
+  { counter := prepareCounter c.dsets (c.orig.map (·.1)), remaining := c.orig,
+    matchSize := 2 ^ 64 - 1, sumW := 0, reported := [] }
+
+/-- each round removes one dataset from the counter, so `#datasets + 1` rounds always suffice
+    (theorem `fuel_irrelevant`) -/
+def fuel (c : Cfg) : Nat := c.dsets.length + 1
+
+def trace (c : Cfg) : List (St × Row) := run c (fuel c) (init c)
+
+/-- `prepare_gather_counters` + `gather` -/
+def gather (c : Cfg) : List Row := (trace c).map (·.2)
 
 end Gather
